@@ -3,7 +3,7 @@
    Model/GoalSrc.v, compute [reached1] of Model/Goal.v, for every goal state and every state: the same Boolean, the
    ValueError exactly when the model returns Err, and never another exception. *)
 From Coq Require Import QArith ZArith Bool List.
-From CR Require Import Base.QMod Model.Interval Model.Goal Model.GoalSrc Gen.Src_goal.
+From CR Require Import Base.QMod Model.Interval Proofs.Interval Model.Goal Proofs.Goal Model.GoalSrc Gen.Src_goal.
 Import ListNotations.
 Open Scope Q_scope.
 
@@ -95,3 +95,19 @@ Section Eq.
     src_goal_reached = ScanReversedFirstHit.
   Proof. repeat apply conj; reflexivity. Qed.
 End Eq.
+
+(* ---- the main C08 statement, about the parsed source: on admissible inputs the parsed is_reached raises nothing and
+   is true exactly when some goal state is satisfied *)
+Theorem src_is_reached_spec : forall tau, 0 < tau ->
+  forall (pos shape : Type) (inside : shape -> pos -> bool) (hypot atan2 : Q -> Q -> Q)
+         (G : list (gstate shape)) (s : state pos),
+  Forall (wf_goal tau shape) G ->
+  (forall g, List.In g G -> admissible pos shape hypot atan2 g s) ->
+  exists b, run_is_reached tau pos shape inside hypot atan2 src_harmonize src_checks G s = Some (Ok b) /\
+            (b = true <-> exists g, List.In g G /\ sat tau pos shape inside hypot atan2 g s).
+Proof.
+  intros tau Ht pos shape inside hypot atan2 G s Hwf Hadm.
+  rewrite src_is_reached_is_model.
+  destruct (is_reached_spec tau Ht pos shape inside hypot atan2 G s Hwf Hadm) as [b [E H]].
+  exists b. split; [rewrite E; reflexivity | exact H].
+Qed.
